@@ -171,6 +171,72 @@ func selectFor(prop string, info *propertyInfo, db *SpecDB, fns map[string]*ssa.
 			rel[k] = true
 		}
 	}
+	// invariant providers: the selected functions assume the invariants (and the ownership of the internals) of the
+	// pointer-holding object types they receive -- key objects.  Those invariants are established by the
+	// constructors, so every contracted function that returns such an object is checked with the property as well,
+	// whatever file it lives in (a constructor that keeps the caller's buffer breaks signing / verification /
+	// ECDH only through a later sequence of calls, and is noticed only by the constructor's own obligations).
+	{
+		owning := func(t types.Type) *types.Named {
+			if p, ok := t.Underlying().(*types.Pointer); ok {
+				t = p.Elem()
+			}
+			n, ok := t.(*types.Named)
+			if !ok || n.Obj().Pkg() == nil || !strings.HasPrefix(n.Obj().Pkg().Path(), modPath) {
+				return nil
+			}
+			st, ok := n.Underlying().(*types.Struct)
+			if !ok {
+				return nil
+			}
+			for i := 0; i < st.NumFields(); i++ {
+				switch st.Field(i).Type().Underlying().(type) {
+				case *types.Pointer, *types.Slice, *types.Interface, *types.Map:
+					return n
+				}
+			}
+			return nil
+		}
+		used := map[*types.Named]bool{}
+		for k := range sel {
+			f, ok := fns[k]
+			if !ok || f.Signature == nil {
+				continue
+			}
+			sig := f.Signature
+			if r := sig.Recv(); r != nil {
+				if n := owning(r.Type()); n != nil {
+					used[n] = true
+				}
+			}
+			for i := 0; i < sig.Params().Len(); i++ {
+				if n := owning(sig.Params().At(i).Type()); n != nil {
+					used[n] = true
+				}
+			}
+		}
+		for k, f := range fns {
+			c, ok := db.Contracts[k]
+			if !ok || c.Inline || c.Trusted != "" || sel[k] || f.Signature == nil {
+				continue
+			}
+			res := f.Signature.Results()
+			for i := 0; i < res.Len(); i++ {
+				if n := owning(res.At(i).Type()); n != nil && used[n] {
+					sel[k] = true
+					delete(rel, k)
+					for _, cal := range staticCallees(f) {
+						if ck, ok := keyOf[cal]; ok && !sel[ck] {
+							if cc, ok := db.Contracts[ck]; ok && !cc.Inline && cc.Trusted == "" {
+								rel[ck] = true
+							}
+						}
+					}
+					break
+				}
+			}
+		}
+	}
 	var s selection
 	for k := range sel {
 		s.keys = append(s.keys, k)
